@@ -28,18 +28,24 @@ def funcs():
         "yes": lambda v: True,
         "no": lambda v: False,
         "boom": _boom,
-        "pos": lambda v: lf.get_data(v) > 0,          # TypeError for strings
-        "len": lambda v: len(lf.get_data(v)),         # an int, not a bool; TypeError for numbers
+        "pos": lambda v: lf.get_data(v) > 0,          # TypeError for strings, None, tuples
+        "len": lambda v: len(lf.get_data(v)),         # an int, not a bool; TypeError for numbers and None
         "hasctx": lambda v: bool(lf.get_context(v)),
+        "isnone": lambda v: lf.get_data(v) is None,
+        "eq0": lambda v: lf.get_data(v) == 0,
     }
 
 
-CLASSES = {"int": int, "str": str, "bool": bool, "object": object}
+CLASSES = {"int": int, "str": str, "bool": bool, "object": object, "tuple": tuple}
 PREDS = {
     "isdict": lambda s: isinstance(s, dict),
+    "isnone": lambda s: s is None,
+    "eq0": lambda s: s == 0,
     "eq1": lambda s: s == 1,
-    "gt0": lambda s: s > 0,                           # TypeError for dictionaries and strings
-    "hasx": lambda s: "x" in s,                       # TypeError for numbers
+    "gt0": lambda s: s > 0,                           # TypeError for dictionaries, strings, None, lists
+    "hasx": lambda s: "x" in s,                       # TypeError for numbers and None
+    "truthy": lambda s: bool(s),
+    "always": lambda s: True,
     "boom": _boom,
 }
 
@@ -53,20 +59,31 @@ def dec_ctx(node):
                 raise ValueError("unexpected list-valued dictionary %r" % (m,))
             return {}
         return {k: dec_ctx(v) for k, v in m.items()}
-    if node["t"] == "int":
+    t = node["t"]
+    if t == "int":
         return int(node["n"])
+    if t == "none":
+        return None
+    if t == "bool":
+        return bool(node["n"])
+    if t == "list":
+        return []
     return str(node["v"])
 
 
 def enc_ctx(obj):
     if isinstance(obj, dict):
         return {"k": "D", "m": {k: enc_ctx(v) for k, v in obj.items()}}
+    if obj is None:
+        return {"k": "L", "t": "none", "n": 0, "v": "None"}
     if isinstance(obj, bool):
-        raise ValueError("no boolean leaves in this encoding")
+        return {"k": "L", "t": "bool", "n": int(obj), "v": str(obj)}
     if isinstance(obj, int):
         return {"k": "L", "t": "int", "n": obj, "v": str(obj)}
     if isinstance(obj, str):
         return {"k": "L", "t": "str", "n": 0, "v": obj}
+    if isinstance(obj, list) and not obj:
+        return {"k": "L", "t": "list", "n": 0, "v": "[]"}
     raise ValueError("cannot encode leaf %r" % (obj,))
 
 
@@ -75,16 +92,24 @@ def dec_data(d):
         return int(d["n"])
     if d["t"] == "bool":
         return bool(d["n"])
+    if d["t"] == "none":
+        return None
+    if d["t"] == "tuple":
+        return (0,) * int(d["n"])
     return "s" * int(d["n"])
 
 
 def enc_data(x):
+    if x is None:
+        return {"t": "none", "n": 0}
     if isinstance(x, bool):
         return {"t": "bool", "n": int(x)}
     if isinstance(x, int):
         return {"t": "int", "n": x}
     if isinstance(x, str):
         return {"t": "str", "n": len(x)}
+    if isinstance(x, tuple):
+        return {"t": "tuple", "n": len(x)}
     raise ValueError("cannot encode data %r" % (x,))
 
 
@@ -96,7 +121,7 @@ def dec_val(v):
 
 
 def enc_val(x):
-    if isinstance(x, tuple):
+    if isinstance(x, tuple) and len(x) == 2 and isinstance(x[1], dict):
         return {"d": enc_data(x[0]), "c": enc_ctx(x[1]), "h": True}
     return {"d": enc_data(x), "c": enc_ctx({}), "h": False}
 
@@ -197,7 +222,8 @@ def size(ast):
 
 
 # ------------------------------------------------------------------ generators (C2S)
-LEAF_PATHS = [["a"], ["b"], ["a", "b"], ["a", "b", "x"], ["a", "b", "5"], ["b", "1"], ["c"], ["a", "c", "d"]]
+LEAF_PATHS = [["a"], ["b"], ["a", "b"], ["a", "b", "x"], ["a", "b", "5"], ["b", "1"], ["c"], ["a", "c", "d"],
+              ["a", "None"], ["b", "False"], ["a", "b", "None"], ["b", "0"], ["a", "[]"]]
 SC_PATHS = [[], ["a"], ["a", "b"], ["b"], ["a", "b", "x"], ["a", "c"]]
 
 
@@ -217,7 +243,7 @@ def random_leaf(rnd):
         return {"k": "str", "p": rnd.choice(LEAF_PATHS)}
     if t < 0.6:
         return {"k": "cls", "c": rnd.choice(sorted(CLASSES))}
-    return {"k": "fn", "f": rnd.choice(["yes", "no", "boom", "pos", "len", "hasctx"])}
+    return {"k": "fn", "f": rnd.choice(["yes", "no", "boom", "pos", "len", "hasctx", "isnone", "eq0"])}
 
 
 def random_spec(rnd, depth, want_obj=False):
@@ -243,7 +269,7 @@ def random_spec(rnd, depth, want_obj=False):
 
 
 def random_leafval(rnd):
-    return rnd.choice([1, 0, -1, 5, 2, "x", "y", "5", "1"])
+    return rnd.choice([1, 0, -1, 5, 2, "x", "y", "5", "1", None, None, 0, "", False, [], {}])
 
 
 def random_ctx(rnd, depth=3, keys=("a", "b", "c", "x")):
@@ -283,7 +309,7 @@ def str_leaves(ast, acc=None):
 
 
 def random_val(rnd):
-    data = rnd.choice([1, -1, 0, 7, True, False, "", "s", "ss"])
+    data = rnd.choice([1, -1, 0, 7, True, False, "", "s", "ss", None, None, (), (0,)])
     if rnd.random() < 0.15:
         return data
     return (data, random_ctx(rnd))
